@@ -22,6 +22,6 @@ def run(tier, seed, replay=None):
                       "HTTP sender (CBOR and JSON) to an HTTP receiver that decodes them")
     ck.cov["exhaustive"] = True
     ck.assumptions += ["arbitrary byte strings are covered for grammar-level mutation classes and byte-level truncation, not for all byte strings; the CID's own bytes are opaque",
-                       "the p2p (gossip) sender is not exercised"]
+                       "the gossip sender is exercised for messages below 512 KiB only (gossipsub limits messages to 1 MiB)"]
     shutil.rmtree(r.workdir, ignore_errors=True)
     return ck
